@@ -248,7 +248,7 @@ class AllocOp(IRDLOperation):
         printer.print_op_attributes(
             self.properties | self.attributes,
             print_keyword=False,
-            reserved_attr_names="operandSegmentSizes",
+            reserved_attr_names=("operandSegmentSizes",),
         )
 
         printer.print_string(" : ")
